@@ -635,8 +635,14 @@ func NewAddressPubKey(serializedPubKey []byte, net *chaincfg.Params) (*AddressPu
 	switch serializedPubKey[0] {
 	case 0x02, 0x03:
 		pkFormat = PKFCompressed
+	case 0x04:
+		pkFormat = PKFUncompressed
 	case 0x06, 0x07:
 		pkFormat = PKFHybrid
+	default:
+		// bchec masks the low bit of the format byte, so e.g. 0x05 parses
+		// as an uncompressed key.  It is not a valid serialization.
+		return nil, errors.New("invalid pubkey format byte")
 	}
 
 	return &AddressPubKey{
